@@ -49,15 +49,38 @@ def run(ctx, replay_case):
         if problem and len([v for v in ctx.violations if v.get("signature") == "obj:" + problem.split(":")[0][:40]]) < 2:
             ctx.violations.append({"kind": "concrete", "signature": "obj:" + problem.split(":")[0][:40], "what": problem,
                                    "replay": c.replay("S")})
+    # events_to_obj: model (Lean `e2oTop`: events -> nested dict -> object) vs implementation, on the events of strict and
+    # warn-mode decodes of well-formed, bit-flipped and truncated inputs (partial event lists included)
+    eops = []
+    for c in wf:
+        eops.append(("E2O", "S", c.tname, c.cc, c.enc, c.data))
+        if c.data:
+            k = rnd.randrange(len(c.data))
+            b = bytearray(c.data)
+            b[k] ^= 1 << rnd.randrange(8)
+            eops.append(("E2O", "W", c.tname, c.cc, c.enc, bytes(b)))
+            eops.append(("E2O", "S", c.tname, c.cc, c.enc, bytes(b[:k])))
+    eimpl = core.run_impl(eops)
+    emodel = core.run_model([core.op_line(o) for o in eops])
+    ebad = [i for i in range(len(eops)) if eimpl[i] != emodel[i]]
+    e2o_kinds = collections.Counter(("crash" if l[0] == "B crash" else "none" if l[0] == "B None" else "object") for l in eimpl)
+    if ebad:
+        i = min(ebad, key=lambda j: len(eops[j][5]))
+        o = eops[i]
+        ctx.violations.append({"kind": "correspondence", "what": "events_to_obj model and implementation disagree",
+                               "replay": {"correspondence": "E2O", "mode": {"S": "strict", "W": "warn"}[o[1]], "type": o[2], "command_code": o[3],
+                                          "parameter_encryption": bool(o[4]), "hex": o[5].hex(), "model": emodel[i][0][:300],
+                                          "impl": eimpl[i][0][:300], "disagreements": len(ebad)}})
     ctx.stats.update({
-        "evaluations": len(wf), "distinct_nontrivial": len({(c.tname, c.cc, c.data) for c in wf if len(c.data) > 0}),
+        "evaluations": len(wf) + len(eops), "distinct_nontrivial": len({(c.tname, c.cc, c.data) for c in wf if len(c.data) > 0}),
         "rule": "well-formed structures of every type and commands/responses of every command code (sessions, encrypted parameters, failed "
                 "responses, empty TPM2B payloads, null union arms): decoder object == generated value; events_to_obj(events) == decoder object; "
                 "obj_to_events(either) == decoded events exactly; re-encoding == input bytes; Canonical facade; obj_to_events compared with "
-                "the Lean model applied to the generated value tree",
+                "the Lean model applied to the generated value tree; events_to_obj compared with the Lean model `e2oTop` on the event lists of strict/warn "
+                "decodes of well-formed, bit-flipped and truncated inputs",
         "samples": [c.replay("S") for c in wf[:: max(1, len(wf) // 5)]][:5],
-        "correspondence": {"ops": len(wf)},
-        "distribution": {"kinds": ds.kinds_distribution(wf), "results": dict(stats)},
+        "correspondence": {"ops": len(wf) + len(eops)},
+        "distribution": {"kinds": ds.kinds_distribution(wf), "results": dict(stats), "events_to_obj_results": dict(e2o_kinds)},
     })
 
 
